@@ -70,6 +70,13 @@ func (fc *FnCtx) callWith(instr ssa.Instruction, c *ssa.CallCommon, args []Val, 
 			return fc.callByContract(instr, key, con, nil, sig, all, st, n)
 		}
 	}
+	if con, key := fc.dynCallContract(instr); con != nil {
+		all := append([]Val{v}, args...)
+		if con.Pure && len(con.Requires) == 0 && len(con.Ensures) == 0 {
+			return fc.ufApp(key, sig, fc.termArgs(all))
+		}
+		return fc.callByContract(instr, key, con, nil, sig, all, st, c.Value.Type())
+	}
 	fc.termArgs(args)
 	fc.note("call of function value without contract in " + fc.fnName() + ": full havoc")
 	fc.havocAll(st)
@@ -146,12 +153,14 @@ func (fc *FnCtx) freshResults(res *types.Tuple, st *State, hint string) Val {
 	return out
 }
 
-func (fc *FnCtx) havocAll(st *State) {
+func (fc *FnCtx) havocAll(st *State) { fc.havocAllExcept(st, nil) }
+
+func (fc *FnCtx) havocAllExcept(st *State, except map[string]bool) {
 	if fc.pureMode {
 		fc.unsup("havoc in pure function")
 	}
 	for _, k := range fc.keys {
-		if strings.HasPrefix(k, "ghost:") || strings.HasPrefix(k, "iter:") || k == "alloc" || fc.eng.constGlobalKey(k) {
+		if strings.HasPrefix(k, "ghost:") || strings.HasPrefix(k, "iter:") || k == "alloc" || fc.eng.constGlobalKey(k) || except[k] {
 			continue
 		}
 		st.heap[k] = fc.tb.Fresh("hv!"+k, fc.keySort[k])
@@ -160,6 +169,10 @@ func (fc *FnCtx) havocAll(st *State) {
 
 func (fc *FnCtx) havocEffects(st *State, eff *effSet, callee string) {
 	if eff.all {
+		if eff.except != nil {
+			fc.havocAllExcept(st, eff.except)
+			return
+		}
 		fc.note("call to " + callee + " has unknown effects: full havoc")
 		fc.havocAll(st)
 		return
@@ -235,7 +248,10 @@ func (fc *FnCtx) callByContract(instr ssa.Instruction, name string, con *Contrac
 		}
 	}
 	// frame
-	if con.HasAssigns {
+	if con.HasPreserves {
+		fc.note("frame of " + name + " assumed: it may write anything except " + strings.Join(con.Preserves, " ") + " (T6)")
+		fc.havocAllExcept(st, fc.eng.preservedKeys(con))
+	} else if con.HasAssigns {
 		if !con.Trusted && fn != nil {
 			fc.note("frame of " + name + " taken from its assigns clause (assumed, not checked against its body)")
 		}
